@@ -182,11 +182,15 @@ def load_frozen(path):
     return out
 
 
-def count_narrow(ctx, prog, eff, rule='COUNT-NARROW', frozen=None):
+def count_narrow(ctx, prog, eff, rule='COUNT-NARROW', frozen=None, fns=None):
     frozen = frozen or {}
     seen, n = set(), 0
+    given = fns
     fns = []
-    for fld in TYPED:
+    for f in (given or []):
+        seen.add((f.name, f.file))
+        fns.append(f)
+    for fld in (TYPED if given is None else ()):
         for f in prog.slot_fns(fld):
             if (f.name, f.file) not in seen:
                 seen.add((f.name, f.file))
@@ -210,7 +214,7 @@ def count_narrow(ctx, prog, eff, rule='COUNT-NARROW', frozen=None):
                 continue
             n += 1
             k += 1
-            key = '%s#%d' % (f.name, k)
+            key = '%s:#%d' % (f.name, k)
             lim = (1 << (tt[0] - 1)) - 1 if tt[1] else (1 << tt[0]) - 1
             b = bd.ev_at(sub, pt)
             ok = b.hi is not None and b.hi <= lim
